@@ -103,6 +103,7 @@ func runMyClient(conn net.Conn, script []Stmt, results []StmtResult) (err error)
 	}
 	for i, st := range script {
 		res := &results[i]
+		clientIdles(st.IdleBefore)
 		gerr := guard(fmt.Sprintf("statement %d", i), func() error {
 			var rows *sql.Rows
 			var qerr error
